@@ -15,7 +15,14 @@ for d in sorted(glob.glob(os.path.join(ROOT, 'seeded', '*'))):
     rows.append('| %s | %s | %s | %s | %s |' % (
         m['id'], (m.get('summary') or '').replace('|', '/')[:150], (m.get('needs') or '').replace('|', '/')[:120],
         own, ' '.join(m.get('with_failing_input', [])) or '-'))
-table = ['<!-- seeded-table-begin -->', '| id | change | needs | caught by its own property\'s check | checks reporting a concrete failing input |',
+conf = [json.load(open(os.path.join(d, 'meta.json'))) for d in sorted(glob.glob(os.path.join(ROOT, 'seeded', '*'))) if os.path.exists(os.path.join(d, 'meta.json'))]
+conf = [m for m in conf if m.get('confirmed')]
+summary = ('%d confirmed changes; caught by at least one check: %d; by the check of the property they were written against: %d '
+           '(with a concrete failing input from that check: %d); caught only as "no-failing-input-found": %d.' % (
+    len(conf), sum(1 for m in conf if m['caught_by']), sum(1 for m in conf if m['property'] in m['caught_by']),
+    sum(1 for m in conf if m['property'] in m['with_failing_input']),
+    sum(1 for m in conf if m['caught_by'] and not m['with_failing_input'])))
+table = ['<!-- seeded-table-begin -->', summary, '', '| id | change | needs | caught by its own property\'s check | checks reporting a concrete failing input |',
          '|---|---|---|---|---|'] + rows + ['<!-- seeded-table-end -->']
 p = os.path.join(ROOT, 'DESIGN.md')
 s = open(p).read()
